@@ -32,6 +32,7 @@ structure PemCertJ where
   split : Bool
   subjectKey : Int
   verifiesUnder : Option (List Nat)
+  x509 : Option Bool           -- crypto/x509.ParseCertificate accepts it (none: key type it does not support)
 deriving FromJson
 
 structure PemKeyJ where
@@ -134,6 +135,27 @@ def keyMatchesAlg (k : KeyJ) (alg : Nat) : Bool :=
   | some (.inl bits) => k.keyType = 0 && ((hexToBytes k.bits).bind rsaModulusBits) = some bits
   | some (.inr oid) => k.keyType = 1 && k.curve = some oid
   | none => false
+
+/-- configurations that are RFC 5280 conformant by construction: only for those is acceptance by
+    `crypto/x509` demanded (it rejects duplicate extensions, wrongly critical ones, raw garbage, …) -/
+def conformantCfg (eff : V1.CertificateContent) : Bool :=
+  let m := eff.manipulations
+  let noManip := !(m.version.isSome || m.signatureAlgorithm.isSome || m.signatureValue.isSome || m.tbsSignature.isSome || m.tbsPublicKeyAlgorithm.isSome || m.tbsPublicKey.isSome)
+  let oids := eff.extensions.map (·.oid)
+  noManip && oids.eraseDups.length == oids.length && eff.extensions.all fun e =>
+    match e.content with
+    | .custom _ => !e.raw.isEmpty
+    | .ocspNoCheck => e.raw.isEmpty
+    | .subjectKeyIdentifier c => e.raw.isEmpty && c == "hash" && !e.critical
+    | .authKeyId id => e.raw.isEmpty && id == "hash" && !e.critical
+    | .authInfoAccess (some us) => e.raw.isEmpty && !us.isEmpty && !e.critical
+    | .subjectAltName (some ns) => e.raw.isEmpty && !ns.isEmpty && ns.all (fun g => g.type != "ip" || ((g.name.splitOn ".").mapM atoiNat).isSome)
+    | .extKeyUsage (some us) => e.raw.isEmpty && !us.isEmpty
+    | .keyUsage (some _) => e.raw.isEmpty
+    | .basicConstraints (some _) => e.raw.isEmpty
+    | .certPolicies (some ps) => e.raw.isEmpty && !ps.isEmpty && ps.all (·.qualifiers.isNone) && (ps.map (·.oid)).eraseDups.length == ps.length
+    | .admission (some _) => e.raw.isEmpty
+    | _ => false
 
 structure CertCheck where
   alias_ : String
@@ -311,10 +333,9 @@ def replayRun (tz : Int) (files : List FileJ) (strat : Nat) (fault : Option Faul
     return { corr := true, spec := clean, clause := if clean then "" else "C09: files written although planning failed", branch := "plan:" ++ expectPlan }
   let mp := (modelPlan.toOption.getD []).map fun c => (c.alias_, if c.change == .replace then 2 else 1)
   let ip := o.plan.map fun p => (p.alias, p.change)
-  if mp != ip then
-    return { corr := false, spec := false, clause := "C11: the set or order of regenerated entities differs from the enabled reasons",
-             branch := "plan", detail := Json.mkObj [("modelPlan", toJson (mp.map (·.1))), ("implPlan", toJson (ip.map (·.1)))],
-             feat := Json.mkObj [("strat", strat)] }
+  -- a plan that differs is a C11 failure; the replay continues with the implementation's plan so that the
+  -- consequences for the other properties are still evaluated
+  let planMismatch := mp != ip
   -- BulkUpdate, replayed in plan order
   let mut s := s0
   let mut checks : List CertCheck := []
@@ -401,7 +422,8 @@ def replayRun (tz : Int) (files : List FileJ) (strat : Nat) (fault : Option Faul
      | none => false)
   -- specification clauses on the directory after a completed run
   let mut specFail : Option String := none
-  if !untouchedOk then specFail := some "C10: an artifact that was not planned was modified or removed"
+  if planMismatch then specFail := some "C11: the set or order of regenerated entities differs from the enabled reasons"
+  if specFail.isNone && !untouchedOk then specFail := some "C10: an artifact that was not planned was modified or removed"
   if implUpdate == "" then
     for pl in o.plan do
       if specFail.isSome then break
@@ -434,6 +456,8 @@ def replayRun (tz : Int) (files : List FileJ) (strat : Nat) (fault : Option Faul
           let cfgSubject := match (files.find? (·.path = e.configPath)).bind (·.json) with | some j => Wire.optStr j "subject" | none => ""
           if specFail.isNone then
             specFail := specOnCert der eff' cfgSubject hasManip none issuerDer self (cj.verifiesUnder.getD []) issuerKeyId
+          if specFail.isNone && conformantCfg eff && cj.x509 == some false then
+            specFail := some "C02: an independent X.509 parser (crypto/x509) rejects the certificate"
           if specFail.isNone && (pemJ.bind (·.key)).isNone && (pemJ.bind (·.csr)).isNone then
             specFail := some "C12: generated entity has no key material"
           if specFail.isNone && (pemJ.map (·.hash)).getD none == none then
@@ -459,7 +483,8 @@ def replayRun (tz : Int) (files : List FileJ) (strat : Nat) (fault : Option Faul
   let nExt : Nat := (s.entities.map (fun x => x.content.extensions.length)).foldl Nat.add 0
   return { corr := corr, spec := specClause == "", clause := clause,
            branch := s!"gen{o.plan.length}" ++ (if implUpdate != "" then ":" ++ expectUpdate else ""),
-           detail := Json.mkObj [("generated", toJson generatedAliases), ("detail", match badCheck with | some b => b.detail | none => Json.null)],
+           detail := Json.mkObj [("generated", toJson generatedAliases), ("detail", match badCheck with | some b => b.detail | none => Json.null),
+                                 ("modelPlan", toJson (mp.map (·.1))), ("implPlan", toJson (ip.map (·.1)))],
            feat := Json.mkObj [("entities", ents.length), ("extensions", nExt), ("updateErr", implUpdate), ("strat", strat)],
            planned := planned, ok := implUpdate == "" }
 
@@ -469,7 +494,7 @@ def ranksOf (j : Json) (k : String) : String → Nat :=
   | .error _ => fun _ => 0
 
 /-- `pki`: one run over a generated directory -/
-def opPki : OpFn := fun _ inp out => do
+def opPki : OpFn := fun view inp out => do
   let tz ← inp.getObjValAs? Int "tz"
   let strat ← inp.getObjValAs? Nat "strat"
   let files : List FileJ ← inp.getObjValAs? (List FileJ) "files"
@@ -479,6 +504,6 @@ def opPki : OpFn := fun _ inp out => do
   let post : List PemJ ← out.getObjValAs? (List PemJ) "pems"
   let keys : List KeyJ ← out.getObjValAs? (List KeyJ) "keys"
   let v := replayRun tz files strat fault pre post (ranksOf out "ranksPre") keys o
-  pure { corr := v.corr, spec := v.spec, clause := v.clause, nontrivial := !v.planned.isEmpty, branch := v.branch, model := v.detail, feat := v.feat }
+  pure { corr := v.corr, spec := v.spec || !viewAccepts view v.clause, clause := v.clause, nontrivial := !v.planned.isEmpty, branch := v.branch, model := v.detail, feat := v.feat }
 
 end Driver
